@@ -1073,6 +1073,11 @@ func (se *stanzaEncoder) EncodeToken(t xml.Token) error {
 			var foundID, foundFrom bool
 			attrs := tok.Attr[:0]
 			for _, attr := range tok.Attr {
+				if attr.Name.Space != "" {
+					// Not one of the stanza's own attributes (eg. xml:id).
+					attrs = append(attrs, attr)
+					continue
+				}
 				switch attr.Name.Local {
 				case "id":
 					// RFC6120 § 8.1.3
